@@ -118,7 +118,7 @@ class AsyncioTransportStreamSocketAdapter(AsyncStreamTransport):
     async def send_all(self, data: bytes | bytearray | memoryview) -> None:
         if isinstance(data, memoryview) and (data.itemsize != 1 or data.ndim != 1):
             # asyncio transports slice the remainder of a partial write by items with a number of bytes
-            data = data.cast("B")
+            data = data.cast("B") if data.nbytes else b""  # (an empty view with several dimensions cannot be cast)
         self.__transport.write(data)
         await self.__protocol.writer_drain()
 
